@@ -31,6 +31,7 @@ type Answer struct {
 	Lazy    io.Reader // used instead of Body when set (huge / endless bodies)
 	Err     error     // transport error
 	ReadErr error     // body fails after the bytes in Body
+	After   func()    // runs after the response has been handed back (e.g. cancel the context)
 }
 
 // Transport is a scripted http.RoundTripper. Handler runs on the calling goroutine.
@@ -111,6 +112,9 @@ func (t *Transport) RoundTrip(raw *http.Request) (*http.Response, error) {
 	if st == 0 {
 		st = 200
 	}
+	if a.After != nil {
+		a.After()
+	}
 	return &http.Response{StatusCode: st, Status: http.StatusText(st), Header: h, Body: io.NopCloser(rd), Request: raw, ProtoMajor: 1, ProtoMinor: 1}, nil
 }
 
@@ -131,4 +135,34 @@ type FetcherFunc func(ctx context.Context, url string) (*corecrl.Bundle, error)
 
 func (f FetcherFunc) Fetch(ctx context.Context, url string) (*corecrl.Bundle, error) {
 	return f(ctx, url)
+}
+
+// Cache is a scripted crl.Cache; it logs every operation.
+type Cache struct {
+	OnGet func(url string) (*corecrl.Bundle, error)
+	OnSet func(url string, b *corecrl.Bundle) error
+	mu    sync.Mutex
+	Ops   []string
+	Sets  []*corecrl.Bundle
+}
+
+func (c *Cache) Get(ctx context.Context, url string) (*corecrl.Bundle, error) {
+	c.mu.Lock()
+	c.Ops = append(c.Ops, "GET "+url)
+	c.mu.Unlock()
+	if c.OnGet == nil {
+		return nil, corecrl.ErrCacheMiss
+	}
+	return c.OnGet(url)
+}
+
+func (c *Cache) Set(ctx context.Context, url string, b *corecrl.Bundle) error {
+	c.mu.Lock()
+	c.Ops = append(c.Ops, "SET "+url)
+	c.Sets = append(c.Sets, b)
+	c.mu.Unlock()
+	if c.OnSet == nil {
+		return nil
+	}
+	return c.OnSet(url, b)
 }
